@@ -164,6 +164,8 @@ class Conn:
                  flavour: str = "asyncio", sched: Optional[Sched] = None, ctx: Optional[WorkerContext] = None,
                  state: Optional[dict] = None, client=("127.0.0.1", 5000), server=("10.0.0.1", 80)) -> None:
         self.sched = sched or Sched()
+        if flavour == "trio":
+            self.sched.checkpoints = True
         self.ctx = ctx or WorkerContext(self.sched)
         self.config = config or make_config()
         self.flavour = flavour
@@ -199,6 +201,7 @@ class Conn:
             if self.paused or (self.pause_at is not None and len(self.writes) >= self.pause_at):
                 self.parked_writes = getattr(self, "parked_writes", 0) + 1
                 await self._resume.wait()
+            await self.sched.checkpoint()  # trio: the send lock and send_all are checkpoints
             n = len(self.writes)
             if self.server_closed or (self.write_fail_at is not None and n >= self.write_fail_at):
                 # ConnectionError from the transport
